@@ -183,6 +183,10 @@ def run_unit(unit, repo, verif, tier='quick', canary=True, workdir=None):
             e['fn'] = f
             e['clause'] = clause_at(lines, ln)
             e['line'] = ln
+            # an obligation raised inside a ghost hint block (lemma call, assertion) is a proof step, not part of a contract
+            loc_lines = e['lines'][-1:] if e['kind'] == 'precondition' else e['lines'][:1]
+            if any(a <= l <= b for l in loc_lines for (a, b) in info.get('hint_spans', [])):
+                e['kind'] = 'assertion'
             out.append(e)
         res['errors'] = out
         res['status'] = 'violation'
